@@ -286,7 +286,36 @@ func c13Limits(c *core.Ctx, r *rand.Rand) []int {
 func c13Family(r *rand.Rand) (string, []string) {
 	rep := func(s string, n int) string { return strings.Repeat(s, n) }
 	n := 5 + r.Intn(120)
-	switch r.Intn(12) {
+	switch r.Intn(15) {
+	case 12, 13: // straight-line runs of one-character loops: many pushes between two backward jumps (the
+		// reservation 4*TrackCount made at a jump has to cover them all), plain and as a repeated group body
+		k := 3 + r.Intn(6)
+		var sb, in strings.Builder
+		for i := 0; i < k; i++ {
+			ch := "abcdefgh"[i]
+			switch r.Intn(4) {
+			case 0:
+				sb.WriteString(`\w+`)
+				in.WriteString(rep("x", 2+r.Intn(3)))
+				sb.WriteString(`\s+`)
+				in.WriteString(rep(" ", 1+r.Intn(3)))
+			case 1:
+				sb.WriteString(string(ch) + "+?")
+				in.WriteString(rep(string(ch), 2+r.Intn(3)))
+			default:
+				sb.WriteString(string(ch) + "+")
+				in.WriteString(rep(string(ch), 2+r.Intn(3)))
+			}
+		}
+		body, one := sb.String(), in.String()
+		reps := 1 + r.Intn(30)
+		if r.Intn(2) == 0 {
+			return "RTL:(?:" + body + ")+", []string{rep(one, reps), rep(one, reps) + "!", one}
+		}
+		if r.Intn(2) == 0 {
+			return "RTL:" + body, []string{one, "zz " + one + " zz", rep(one, 2)}
+		}
+		return "(?:" + body + ")+", []string{rep(one, reps), rep(one, reps) + "!", one}
 	case 0: // the shape of the truncated-growth defect
 		k := 1 + r.Intn(14)
 		var sb strings.Builder
@@ -337,6 +366,13 @@ func c13GenCase(c *core.Ctx) func(rng *rand.Rand, i int) c13Case {
 			cs.Pattern, cs.Inputs = c13Family(rng)
 			if rng.Intn(4) == 0 {
 				cs.Opts = int(c13Opts[rng.Intn(len(c13Opts))])
+			}
+			if strings.HasPrefix(cs.Pattern, "RTL:") {
+				cs.Pattern = cs.Pattern[4:]
+				cs.Opts = int(regexp2.RightToLeft)
+				if rng.Intn(4) == 0 {
+					cs.Opts |= int(regexp2.IgnoreCase)
+				}
 			}
 			return cs
 		default:
